@@ -134,6 +134,7 @@ pub fn run(tier: Tier) -> ! {
     let chk = Check::new("C09", tier, "exploration");
     quiet_panics();
     mute_stdout();
+    chk.randomised.store(true, std::sync::atomic::Ordering::Relaxed);
     let cfgs = configs(tier);
     let corpora = corpora_boundary(tier.pick(4, 12));
     let texts = gen::strings(&['a', 'b', 'あ', '1'], 2, 4);
